@@ -52,14 +52,15 @@ def gen_hierarchy(r, i):
     """-> classes: list of {name, params, base: (name, args) | None, explicit_generic, fields: [(fname, term)]}"""
     classes = []
     pa = r.sample(VARS, r.randint(1, 3))
-    classes.append({"name": f"GA{i}", "params": pa, "base": None, "explicit": True,
+    kind = r.choice(["dataclass", "dataclass", "dataclass", "namedtuple", "typeddict"])
+    classes.append({"name": f"GA{i}", "params": pa, "base": None, "explicit": True, "kind": kind,
                     "fields": [(f"a{k}", gen_term(r, pa)) for k in range(r.randint(1, 3))]})
     # make sure every parameter is used by a field (otherwise a specialisation would not matter)
     used = []
     for _, t in classes[0]["fields"]: free_vars(t, used)
     for p in pa:
         if p not in used: classes[0]["fields"].append((f"a_{p.lower()}", ("v", p)))
-    depth = r.randint(1, 2)
+    depth = r.randint(1, 2) if kind == "dataclass" else 0
     for d in range(depth):
         par = classes[-1]; name = f"G{'BC'[d]}{i}"
         own = r.sample(VARS, r.randint(1, 3))
@@ -91,6 +92,10 @@ def class_src(classes):
     out = []
     for c in classes:
         bases = []
+        if c.get("kind", "dataclass") != "dataclass":
+            out += [f"class {c['name']}({'NamedTuple' if c['kind'] == 'namedtuple' else 'TypedDict'}, Generic[{', '.join(c['params'])}]):"]
+            out += [f"    {fn}: {render(t)}" for fn, t in c["fields"]] + [""]
+            continue
         if c["base"]: bases.append(f"{c['base'][0]}[{', '.join(render(a) for a in c['base'][1])}]" if c["base"][1] else c["base"][0])
         if c["explicit"] and c["params"]: bases.append(f"Generic[{', '.join(c['params'])}]")
         out += ["@dataclass", f"class {c['name']}" + (f"({', '.join(bases)})" if bases else "") + ":"]
@@ -184,9 +189,10 @@ def run_part(prop, seed, budget):
                 env = dict(zip(c["params"], conc))
                 fields = resolved_fields(classes, idx, env)
                 twin = f"Tw{i}_{idx}_{rep}"
-                src += ["@dataclass", f"class {twin}:"] + [f"    {fn}: {render(t)}" for fn, t in fields] + [""]
+                kind = classes[0].get("kind", "dataclass")
+                src += (["@dataclass", f"class {twin}:"] if kind == "dataclass" else [f"class {twin}({'NamedTuple' if kind == 'namedtuple' else 'TypedDict'}):"]) + [f"    {fn}: {render(t)}" for fn, t in fields] + [""]
                 specs.append({"classes": classes, "idx": idx, "py": (f"{c['name']}[{', '.join(render(x) for x in conc)}]" if conc else c["name"]), "twin": twin, "fields": fields, "conc": [render(x) for x in conc],
-                              "reordered": c["explicit"] and c["base"] is not None})
+                              "reordered": c["explicit"] and c["base"] is not None, "kind": kind})
     ns = vars(build_module(src, f"generics{seed}"))
 
     # K: the model's resolution (Api.Generics.resolveChain, driver op "generic") against the package's `resolve_type_hints` on the very classes
@@ -212,6 +218,22 @@ def run_part(prop, seed, budget):
                                  "appearance_order_gives": rep["appearance_order"]})
                 hist["K:generic-disagreements"] += 1
 
+    # two steps = one step (Api.Generics.resolve_two_step): an alias of a partial specialisation, closed afterwards, has the fields of the direct spelling
+    if prop == "C01":
+        from apischema.typing import resolve_type_hints
+        for sp in specs:
+            if len(sp["conc"]) < 2: continue
+            k = r.randrange(len(sp["conc"])); gname = sp["classes"][sp["idx"]]["name"]
+            partial_src = f"{gname}[{', '.join('T' if j == k else c for j, c in enumerate(sp['conc']))}]"
+            hist["generic:two-step-specialisations"] += 1; n += 1
+            try:
+                two = eval(f"({partial_src})[{sp['conc'][k]}]", ns); one = eval(sp["py"], ns)
+                a = [[fn, py_render(tp)] for fn, tp in resolve_type_hints(two).items()]; b = [[fn, py_render(tp)] for fn, tp in resolve_type_hints(one).items()]
+            except Exception as e: a, b = "EXC:" + type(e).__name__ + ":" + str(e)[:80], None
+            if a != b:
+                failures.append({"kind": "P", "k_ok": None, "part": "generic-classes", "features": ["generic"], "why": ["two-step-specialisation-differs-from-the-direct-one"],
+                                 "py": f"({partial_src})[{sp['conc'][k]}]", "direct": sp["py"], "classes": class_src(sp["classes"]), "two_steps": a, "one_step": b})
+
     def out(fn):
         try: return ("ok", fn())
         except ValidationError as e: return ("invalid", e.errors)
@@ -225,7 +247,7 @@ def run_part(prop, seed, budget):
 
     for sp in specs:
         G = eval(sp["py"], ns); Tw = ns[sp["twin"]]; gname = sp["classes"][sp["idx"]]["name"]
-        hist["generic:depth-%d" % sp["idx"]] += 1
+        hist["generic:depth-%d" % sp["idx"]] += 1; hist["generic:" + sp["kind"]] += 1
         if sp["reordered"]: hist["generic:explicit-Generic[...]-on-a-subclass"] += 1
         def fail(why, **kw):
             failures.append(dict({"kind": "P", "k_ok": None, "part": "generic-classes", "features": ["generic"], "why": [why], "py": sp["py"],
@@ -261,8 +283,9 @@ def run_part(prop, seed, budget):
             a = out(lambda: deserialize(G, d)); b = out(lambda: deserialize(Tw, d))
             hist["generic-outcome:" + b[0]] += 1
             if prop == "C01":
-                av = dataclasses.asdict(a[1]) if a[0] == "ok" else a[1]; bv = dataclasses.asdict(b[1]) if b[0] == "ok" else b[1]
-                if a[0] != b[0] or av != bv or (a[0] == "ok" and type(a[1]).__name__ != gname):
+                plain = lambda v: dataclasses.asdict(v) if dataclasses.is_dataclass(v) else (v._asdict() if hasattr(v, "_asdict") else v)
+                av = plain(a[1]) if a[0] == "ok" else a[1]; bv = plain(b[1]) if b[0] == "ok" else b[1]
+                if a[0] != b[0] or av != bv or (a[0] == "ok" and sp["kind"] != "typeddict" and type(a[1]).__name__ != gname):
                     fail("specialised-generic-class-deserializes-differently-from-its-plain-twin" if a[0] != "crash" else "crash:" + a[1].split(":")[0],
                          datum=d, generic=repr(a)[:300], twin=repr(b)[:300])
             elif prop == "C04" and a[0] == "ok" and b[0] == "ok":
